@@ -151,6 +151,9 @@ func init() {
 		nr := c.pick(600, 6000)
 		for n := 0; n < nr; n++ {
 			k := 3 + c.rng.Intn(10)
+			if n%25 == 7 { // rings of dozens and hundreds of vertices, around the sizes where buffers and blocks end (and of one and two)
+				k = []int{1, 2, 15, 16, 17, 31, 32, 33, 63, 64, 65, 127, 128, 129, 200}[c.rng.Intn(15)]
+			}
 			r := make([][2]int, k)
 			for i := range r {
 				r[i] = [2]int{2 * c.rng.Intn(13), 2 * c.rng.Intn(13)}
